@@ -312,4 +312,139 @@ theorem lastIdx_append (c : Char) (a b : Str) (h : c ∉ b) : lastIdx c (a ++ c 
   | nil => simp [lastIdx, lastIdx_none h]
   | cons x r ih => simp [lastIdx, ih]
 
+theorem firstIdx_append (c : Char) (a b : Str) (h : c ∉ a) : firstIdx c (a ++ c :: b) = some a.length := by
+  induction a with
+  | nil => simp [firstIdx]
+  | cons x r ih =>
+    simp only [List.mem_cons, not_or] at h
+    have hx : ¬ x = c := fun e => h.1 e.symm
+    simp [firstIdx, hx, ih h.2]
+
+
+/-! ### request-target decoding -/
+
+theorem split_append (a b : Str) : split (a ++ '/' :: b) = split a ++ split b := by
+  induction a with
+  | nil => simp [split]
+  | cons c r ih =>
+    by_cases hc : c = '/'
+    · simp [split, hc, ih]
+    · have hne := split_ne_nil r
+      cases hs : split r with
+      | nil => exact absurd hs hne
+      | cons h t => simp [split, hc, ih, hs]
+
+theorem split_cases (q : Str) :
+    ('/' ∉ q ∧ split q = [q]) ∨ ∃ a b, q = a ++ '/' :: b ∧ '/' ∉ a := by
+  induction q with
+  | nil => left; simp [split]
+  | cons c r ih =>
+    by_cases hc : c = '/'
+    · right; exact ⟨[], r, by simp [hc], by simp⟩
+    · rcases ih with ⟨h1, _⟩ | ⟨a, b, h1, h2⟩
+      · left
+        have : '/' ∉ c :: r := by
+          simp only [List.mem_cons, not_or]; exact ⟨fun e => hc e.symm, h1⟩
+        exact ⟨this, split_noslash this⟩
+      · right
+        refine ⟨c :: a, b, by simp [h1], ?_⟩
+        simp only [List.mem_cons, not_or]; exact ⟨fun e => hc e.symm, h2⟩
+
+theorem unescape_nil : unescape [] = some [] := by rw [unescape]
+theorem unescape_cons_noPct {c : Char} (hc : c ≠ '%') (r : Str) : unescape (c :: r) = (unescape r).map (c :: ·) := by
+  cases r with
+  | nil => simp [unescape, hc]
+  | cons a r => cases r with
+    | nil => simp [unescape, hc]
+    | cons b r => simp [unescape, hc]
+theorem unescape_pct_nil : unescape ['%'] = none := by rw [unescape]; simp
+theorem unescape_pct_one (x : Char) : unescape ['%', x] = none := by rw [unescape]; simp
+theorem unescape_pct (x y : Char) (r : Str) : unescape ('%' :: x :: y :: r) =
+    if isHex x && isHex y then (unescape r).map (Char.ofNat (hexV x * 16 + hexV y) :: ·) else none := by
+  rw [unescape]; simp
+
+/-- decoding distributes over a raw slash: an escape never spans a `/`. -/
+theorem unescape_append_slash : ∀ (n : Nat) (a b : Str), a.length ≤ n →
+    unescape (a ++ '/' :: b) = (unescape a).bind (fun a' => (unescape b).map (fun b' => a' ++ '/' :: b')) := by
+  have hs : ('/' : Char) ≠ '%' := by decide
+  have hnil : ∀ b : Str, unescape ([] ++ '/' :: b) =
+      (unescape []).bind (fun a' => (unescape b).map (fun b' => a' ++ '/' :: b')) := by
+    intro b
+    simp only [List.nil_append, unescape_nil, unescape_cons_noPct hs]
+    cases unescape b <;> simp
+  intro n
+  induction n with
+  | zero =>
+    intro a b h
+    have : a = [] := by cases a <;> simp_all
+    subst this
+    exact hnil b
+  | succ n ih =>
+    intro a b h
+    cases a with
+    | nil => exact hnil b
+    | cons c r =>
+      by_cases hc : c = '%'
+      · subst hc
+        cases r with
+        | nil =>
+          cases b with
+          | nil => simp [unescape_pct_nil, unescape_pct_one]
+          | cons y b' => simp [unescape_pct_nil, unescape_pct, isHex]
+        | cons x r1 =>
+          cases r1 with
+          | nil => simp [unescape_pct_one, unescape_pct, isHex]
+          | cons y r2 =>
+            have hl : r2.length ≤ n := by simp at h; omega
+            have := ih r2 b hl
+            by_cases hh : (isHex x && isHex y) = true
+            · simp only [List.cons_append, unescape_pct, hh, if_true, this]
+              cases unescape r2 <;> simp
+              cases unescape b <;> simp
+            · simp [unescape_pct, hh]
+      · have hl : r.length ≤ n := by simp at h; omega
+        have := ih r b hl
+        simp only [List.cons_append, unescape_cons_noPct hc, this]
+        cases unescape r <;> simp
+        cases unescape b <;> simp
+
+/-- every raw segment of a decodable path decodes, and the segments of its decoding are segments of
+the decoded path. -/
+theorem raw_segments_decode : ∀ (n : Nat) (q d : Str), q.length ≤ n → unescape q = some d →
+    ∀ s ∈ split q, ∃ ds, unescape s = some ds ∧ ∀ x ∈ split ds, x ∈ split d := by
+  intro n
+  induction n with
+  | zero =>
+    intro q d h hq s hs
+    have : q = [] := by cases q <;> simp_all
+    subst this
+    simp [split] at hs
+    subst hs
+    exact ⟨d, hq, fun x hx => hx⟩
+  | succ n ih =>
+    intro q d h hq s hs
+    rcases split_cases q with ⟨_, h2⟩ | ⟨a, b, h1, h2⟩
+    · rw [h2] at hs
+      simp at hs
+      subst hs
+      exact ⟨d, hq, fun x hx => hx⟩
+    · subst h1
+      rw [unescape_append_slash a.length a b (Nat.le_refl _)] at hq
+      cases ha : unescape a with
+      | none => simp [ha] at hq
+      | some a' =>
+        cases hb : unescape b with
+        | none => simp [ha, hb] at hq
+        | some b' =>
+          simp [ha, hb] at hq
+          subst hq
+          rw [split_append_slash b h2] at hs
+          rw [split_append]
+          simp only [List.mem_cons] at hs
+          rcases hs with rfl | hs
+          · exact ⟨a', ha, fun x hx => List.mem_append_left _ hx⟩
+          · have hl : b.length ≤ n := by simp at h; omega
+            obtain ⟨ds, h3, h4⟩ := ih b b' hl hb s hs
+            exact ⟨ds, h3, fun x hx => List.mem_append_right _ (h4 x hx)⟩
+
 end Agd.LinkIP
